@@ -135,7 +135,7 @@ Definition facts_sound (r : rx) : Prop :=
 Definition find_agrees (F : nat) (r : rx) (data : list N) (off : nat) (res : option caps) (off' : nat) : Prop :=
   off <= off' /\ off' <= length data /\
   match res with
-  | Some m => plain F r (skipn off data) = Some (shift (off' - off) m)
+  | Some m => plain F r (skipn off data) = Some (shift (off' - off) m) /\ (match_end m = 0 -> off' = off)
   | None => plain F r (skipn off data) = None /\ plain F r (skipn off' data) = None
   end.
 
@@ -167,13 +167,13 @@ Qed.
 
 (* the part of find after the context-sensitivity test, without the fixed-length window *)
 Theorem find_shortcut_plain_partial : forall F guard r data off res off',
-  assertion_free (r_prog r) = true -> facts_sound r -> off <= length data ->
+  assertion_free (r_prog r) = true -> facts_sound r -> 2 <= r_ncap r -> off <= length data ->
   (* the fixed-length window loop is not covered by this statement *)
   (N.eqb (f_min (r_facts r)) (f_max (r_facts r)) && match f_prefix (r_facts r) with [] => true | _ => false end
      && match f_suffix (r_facts r) with [] => false | _ => true end = false) ->
   find F guard r data off = (res, off') -> find_agrees F r data off res off'.
 Proof.
-  intros F guard r data off res off' Haf Hfs Hoff Hnw H.
+  intros F guard r data off res off' Haf Hfs Hnc Hoff Hnw H.
   pose proof Hfs as [Hpre [Hsuf Hlen]].
   unfold find in H. unfold context_sensitive in H. rewrite Haf in H. simpl negb in H. rewrite andb_false_r in H.
   set (buffer := skipn off data) in *.
@@ -275,7 +275,13 @@ Proof.
   rewrite Hnw in H.
   destruct (plain F r buffer2) as [m|] eqn:PM.
   - inversion H; subst res off'. unfold find_agrees. fold buffer. repeat split; try lia.
-    rewrite Pl1, <- Pl2. simpl. f_equal. f_equal. lia.
+    + rewrite Pl1, <- Pl2. simpl. f_equal. f_equal. lia.
+    + intros Hz. unfold plain in PM.
+      destruct (search_end _ _ _ _ _ Hnc PM) as [j [e [X [Y [Z W]]]]].
+      unfold match_end in Hz. rewrite W in Hz. subst e.
+      assert (j = 0) by lia. subst j. rewrite slice_nil in Z.
+      destruct (Hpre _ Z) as [rest E]. destruct (f_prefix (r_facts r)); [|discriminate].
+      inversion S1. lia.
   - inversion H; subst res off'. unfold find_agrees. fold buffer. repeat split; try lia.
     + rewrite Pl1, <- Pl2. reflexivity.
     + eapply plain_none_later with (a := off); eauto. fold buffer. rewrite Pl1, <- Pl2. reflexivity.
